@@ -467,6 +467,7 @@ impl Case {
         let phase: &'static str = match v["phase"].as_str().unwrap_or("hist") {
             "boundary" => "boundary",
             "placement" => "placement",
+            "junction" => "junction",
             "multiseg" => "multiseg",
             "oom" => "oom",
             _ => "hist",
